@@ -892,3 +892,61 @@ def run(idx, rep, tier):
                   '(IdentityFile, ProxyCommand, ...) resolves differently '
                   'from ssh on a machine whose host name has no dot',
                   _fi.loc(_body[_i1]))
+    rep.rule('C18.R14', 'SSHConfig.parse splits a line with shlex.split '
+             'without comments=True: shlex ends the line at any unquoted '
+             '"#", also inside a word, while ssh only treats "#" as a '
+             'comment at the start of a word - "User build#ci" must not '
+             'become "build", "Host web#1" not "Host web"')
+    _fpz = k.func('config.SSHConfig.parse')
+    _sp = [c for c in ast.walk(_fpz.node) if is_call(c, 'split', 'shlex')]
+    rep.floor('C18.R14', 'shlex.split calls in parse', len(_sp), 1)
+    for _c in _sp:
+        _cm = [kw for kw in _c.keywords if kw.arg == 'comments' and not (
+            isinstance(kw.value, ast.Constant) and kw.value.value is False)]
+        _pos = len(_c.args) > 1
+        rep.check(not _cm and not _pos, 'C18.R14',
+                  key(_fpz, 'no mid-word comments'),
+                  'shlex.split(line)',
+                  f'`{norm(_c)}`: IdentityFile /keys/id#2 resolves to '
+                  '/keys/id, ProxyJump jump#x@gw:2222 to jump, Host web#1 '
+                  'and Host web#2 both to Host web', _fpz.loc(_c))
+    rep.rule('C18.R15', 'connection._expand_algs: the expanded algorithm '
+             'list keeps the order of the patterns as written (the outer '
+             'iteration that fills the result runs over algs.split(","), '
+             'the table of possible algorithms only inside it) - Ciphers '
+             'aes128-ctr,aes256-ctr must negotiate aes128-ctr first, as ssh '
+             'does, not whatever order the internal table has')
+    from ..index import parent as _par
+    _fea = k.func('connection._expand_algs')
+    _fills = [c for c in ast.walk(_fea.node) if isinstance(c, ast.Call) and
+              isinstance(c.func, ast.Attribute) and
+              c.func.attr in ('extend', 'append') and
+              dotted(c.func.value) == 'matched']
+    _compr = [x for x in ast.walk(_fea.node) if isinstance(x, ast.Assign) and
+              any(dotted(t) == 'matched' for t in x.targets) and
+              isinstance(x.value, (ast.ListComp, ast.GeneratorExp))]
+    rep.floor('C18.R15', 'result constructions', len(_fills) + len(_compr), 1)
+    for _c in _fills:
+        _outer = None
+        _p = _c
+        while _p is not None and _p is not _fea.node:
+            _p = _par(_p)
+            if isinstance(_p, ast.For):
+                _outer = _p
+        _ok = _outer is not None and 'algs' in names_read(_outer.iter) and \
+            'possible_algs' not in names_read(_outer.iter)
+        rep.check(_ok, 'C18.R15', key(_fea, 'order of the patterns kept'),
+                  'for pat in algs.split(","): ... matched.extend(...)',
+                  'the result is filled in the order of the internal '
+                  'table: Ciphers aes128-ctr,aes256-ctr negotiates '
+                  'aes256-ctr, MACs hmac-sha2-512,hmac-sha2-256 '
+                  'negotiates hmac-sha2-256', _fea.loc(_c))
+    for _x in _compr:
+        _g0 = _x.value.generators[0]
+        rep.check('algs' in names_read(_g0.iter) and
+                  'possible_algs' not in names_read(_g0.iter), 'C18.R15',
+                  key(_fea, 'order of the patterns kept'),
+                  'outer generator over the patterns',
+                  'the result is a single pass over the possible '
+                  'algorithms: the preference order written in the config '
+                  'is replaced by the internal table order', _fea.loc(_x))
